@@ -2,7 +2,7 @@
    Only statements closed by `exact`, with Print Assumptions under each.  The hash primitives
    (keccak, the three argon2id variants, hashimoto) are universally quantified: nothing is assumed of them. *)
 From AQ Require Import Lib.Bytes Rlp.RlpSpec Generated.GenParamsConsensus
-  Consensus.HeaderModel Consensus.Seal Consensus.SealProofs.
+  Consensus.HeaderModel Consensus.Seal Consensus.SealProofs Consensus.BlockModel Consensus.BlockProofs Consensus.SealerModel Consensus.SealerProofs.
 Local Open Scope Z_scope.
 
 (* VerifySeal accepts exactly when the number is inside the epoch table (number/30000 < 2048), the difficulty is
@@ -107,6 +107,63 @@ Theorem C14_mined_seal_without_version_refuted :
 Proof. exact mine_without_version_refuted. Qed.
 Print Assumptions C14_mined_seal_without_version_refuted.
 
+(* several search threads (sealer.go Seal): N goroutines with arbitrary start nonces (disjoint or overlapping streams) run the
+   nonce search, share `abort`, and offer their first solution on the unbuffered `found`; the caller may stop at any time.
+   For EVERY interleaving (arbitrary list of (thread, step) and stop events — no assumption on the scheduler): whatever
+   Seal returns passes VerifySeal under the block's own version; at most one value is ever received from `found`; a value
+   was received iff there is a result; and then abort is closed.  Premises as for one thread. *)
+Theorem C14_sealer_threads_result_verifies :
+  forall (keccak argonA argonB argonC : bytes -> bytes) (hashimoto : Z -> bytes -> Z -> option (bytes * bytes))
+         (v : Z) (h : sheader),
+    (s_version h = 3 <-> v = 3) ->
+    big_uint64 (s_number h) / 30000 < 2048 ->
+    s_diff h > 0 ->
+    forall (starts : list Z) (es : list sevent) (s : sealer),
+      seal_threads keccak argonA argonB argonC hashimoto v h starts es = SOk s ->
+      (forall h', sl_result s = Some h' ->
+                  verify_seal keccak argonA argonB argonC hashimoto h' = SOk tt /\ s_version h' = v) /\
+      (sl_delivered s <= 1)%nat /\
+      (sl_delivered s = 1%nat <-> sl_result s <> None) /\
+      (sl_result s <> None -> sl_abort s = true).
+Proof. exact sealer_result_verifies. Qed.
+Print Assumptions C14_sealer_threads_result_verifies.
+
+(* Block objects memoise their hash and size (core/types/block.go).  Cache coherence along EVERY sequence of the
+   operations Hash / Size / Header / SetVersion / SetVersionConfig / WithSeal / WithBody on a freshly constructed block
+   (SetVersionConfig only where it cannot change the version under a memoised hash: see the refuted clause below):
+   Hash() then shows the version-selected hash of the block's CURRENT header (panicking exactly when that header has no
+   hash), Size() the length of its CURRENT encoding *)
+Theorem C14_block_hash_is_of_current_header :
+  forall (keccak argonA argonB argonC : bytes -> bytes) (h0 : sheader) (t0 u0 : bytes) (ops : list bop) (b : mblock) (obs : list bobs),
+    block_run keccak argonA argonB argonC (new_block h0 t0 u0) ops = SOk (b, obs) ->
+    run_safe keccak argonA argonB argonC (new_block h0 t0 u0) ops = true ->
+    match block_op keccak argonA argonB argonC b BHash with
+    | SOk (b', ob) => exists x, ob = ObsHash x /\ header_hash keccak argonA argonB argonC (mb_header b) = SOk x /\ mb_header b' = mb_header b
+    | SErr _ => False
+    | SPanic => header_hash keccak argonA argonB argonC (mb_header b) = SPanic
+    end /\
+    exists b', block_op keccak argonA argonB argonC b BSize = SOk (b', ObsSize (lenN (block_rlp b))) /\ mb_header b' = mb_header b.
+Proof. exact block_hash_is_of_current_header. Qed.
+Print Assumptions C14_block_hash_is_of_current_header.
+
+(* the block WithSeal returns carries the given header and no memoised value of the block it was made from *)
+Theorem C14_sealed_block_is_fresh :
+  forall (keccak argonA argonB argonC : bytes -> bytes) (b : mblock) (h : sheader) (b' : mblock) (ob : bobs),
+    block_op keccak argonA argonB argonC b (BWithSeal h) = SOk (b', ob) ->
+    mb_hash b' = None /\ mb_size b' = None /\ mb_header b' = h.
+Proof. exact with_seal_fresh. Qed.
+Print Assumptions C14_sealed_block_is_fresh.
+
+(* without the side condition: SetVersionConfig writes the version and leaves a hash memoised under another version
+   (no caller in /repo does this: it is only applied to blocks that already carry the version of their height) *)
+Theorem C14_set_version_config_stale_refuted :
+  exists keccak argonA argonB argonC ops b obs x,
+    block_run keccak argonA argonB argonC (new_block toy_block_header [xc0] [xc0]) ops = SOk (b, obs) /\
+    block_op keccak argonA argonB argonC b BHash = SOk (b, ObsHash x) /\
+    header_hash keccak argonA argonB argonC (mb_header b) <> SOk x.
+Proof. exact set_version_config_stale_refuted. Qed.
+Print Assumptions C14_set_version_config_stale_refuted.
+
 (* non-vacuity: a concrete version-2 header (toy hash functions) that is accepted at difficulty 1 and 2^255 but
    rejected at a difficulty one above the quotient; and the generated testnet2 schedule switches 2 -> 3 -> 4 *)
 Example C14_example :
@@ -123,3 +180,33 @@ Example C14_example :
   map (block_version {| chain_id := testnet2_chain_id; hf := testnet2_hf |}) [7; 8; 18; 19] = [2; 3; 3; 4] /\
   map (block_version {| chain_id := mainnet_chain_id; hf := mainnet_hf |}) [22799; 22800] = [1; 2].
 Proof. exact seal_example. Qed.
+
+Example C14_block_ops_example :
+  let keccak := fun b : bytes => [x01; n2b (lenN b)] in
+  let argon := fun b : bytes => [x02; n2b (lenN b)] in
+  let h1 := with_version toy_block_header 2 in
+  match block_run keccak argon argon argon (new_block toy_block_header [xc0] [xc0])
+                  [BHash; BSize; BWithSeal h1; BHash; BWithBody [xc0] [xc1; x80]; BSize; BHash; BSetVersion 1; BHash] with
+  | SOk (b, obs) =>
+    obs = [ObsHash [x01; n2b 500]; ObsSize 505; ObsNone; ObsHash [x02; n2b 500]; ObsNone; ObsSize 506; ObsHash [x02; n2b 500];
+           ObsHash [x01; n2b 500]; ObsHash [x01; n2b 500]] /\ s_version (mb_header b) = 1
+  | _ => False
+  end.
+Proof. exact block_ops_example. Qed.
+
+Example C14_sealer_example :
+  let run := seal_threads toy_pow_keccak toy_pow_argon toy_pow_argon toy_pow_argon (fun _ _ _ => None) 2 toy_work [0; 2; 5] in
+  match run [EStep 1; EStep 0; EStep 1; EStep 1; EStep 0; EStep 0; EStep 0; EStep 0; EStep 2] with
+  | SOk s => option_map s_nonce (sl_result s) = Some 3 /\ sl_delivered s = 1%nat /\ sl_abort s = true /\
+             sl_threads s = [TDone; TDone; TDone]
+  | _ => False
+  end /\
+  match run [EStep 2; EStep 2; EStep 2; EStep 2] with
+  | SOk s => option_map s_nonce (sl_result s) = Some 7 /\ sl_delivered s = 1%nat
+  | _ => False
+  end /\
+  match run [EStep 0; EStop; EStep 0; EStep 1; EStep 2] with
+  | SOk s => sl_result s = None /\ sl_delivered s = 0%nat /\ sl_threads s = [TDone; TDone; TDone]
+  | _ => False
+  end.
+Proof. exact sealer_example. Qed.
